@@ -84,6 +84,26 @@ fn pay_case(ctx: &mut Ctx, idx: usize, w: &World, w2: &World, w_rp: &World, w_re
     let _ = allow_check(ctx, w2, &run.nonce_s, amount, &a.ctx_bytes, &run.d, Some(false), "other-merchant-key");
     let _ = allow_check(ctx, w_rp, &run.nonce_s, amount, &a.ctx_bytes, &run.d, Some(false), "other-range-parameters");
     let _ = allow_check(ctx, w_rev, &run.nonce_s, amount, &a.ctx_bytes, &run.d, Some(false), "other-revocation-parameters");
+    // range parameters differing from the original in a single element of a single digit signature
+    for (which, what) in [(1usize, "range-parameters-one-sigma2-replaced"), (0usize, "range-parameters-one-sigma1-replaced")] {
+        let k = [0usize, 1, 127, ctx.prng.gen_range(0..128)][ctx.prng.gen_range(0..4)];
+        let mut rpd2 = w.rpd.clone();
+        let r = nonzero(&mut ctx.prng);
+        if which == 1 { rpd2.sigs[k].1 += r } else { rpd2.sigs[k].0 += r }
+        if which == 0 && rpd2.sigs[k].0 == Scalar::zero() { continue; }
+        if let Some(w3) = world_from(ctx, &w.kpd, w.rev_h, w.rev_g, &rpd2) {
+            let _ = allow_check(ctx, &w3, &run.nonce_s, amount, &a.ctx_bytes, &run.d, Some(false), what);
+        }
+    }
+    // the merchant key with a single element replaced (same secret key otherwise)
+    {
+        let mut kpd2 = w.kpd.clone();
+        let j = ctx.prng.gen_range(0..5);
+        if ctx.prng.gen_range(0..2) == 0 { kpd2.pk.y2s[j] += Scalar::one(); } else { kpd2.pk.y1s[j] += Scalar::one(); }
+        if let Some(w3) = world_from(ctx, &kpd2, w.rev_h, w.rev_g, &w.rpd) {
+            let _ = allow_check(ctx, &w3, &run.nonce_s, amount, &a.ctx_bytes, &run.d, Some(false), "merchant-key-one-element-replaced");
+        }
+    }
     let n2 = rand_scalar(&mut ctx.prng);
     let _ = allow_check(ctx, w, &n2, amount, &a.ctx_bytes, &run.d, Some(false), "other-nonce");
     let _ = allow_check(ctx, w, &(run.nonce_s + Scalar::one()), amount, &a.ctx_bytes, &run.d, Some(false), "other-nonce");
